@@ -42,8 +42,24 @@ def ukey(types, a, b):
     return (i, j) if i <= j else (j, i)
 
 
+# Stored values are nested on purpose: [payload list, ...].  The payload lives one level down, so that a table
+# which only copies the outer container (copy.copy) still shares the payload between pairs / with the caller.
+class Falsy(list):
+    """A perfectly good value whose truth value is False (like 0, 0.0, '' or an empty array)."""
+    def __bool__(self):
+        return False
+
+
+def wrap(seq):
+    return Falsy([list(seq)]) if len(seq) == 0 else [list(seq)]
+
+
+def flat(v):
+    return list(v[0]) + list(v[1:])
+
+
 def apply_func(v):
-    return None if v is None else list(v) + ['f']
+    return None if v is None else [list(v[0]) + ['f']] + list(v[1:])
 
 
 # --------------------------------------------------------------------------
@@ -95,23 +111,26 @@ def pt_step(T, model, types, op):
     model = dict(model)
     kind = op[0]
     if kind == 'set':
-        val = list(op[3])
+        val = wrap(op[3])
         T[op[1], op[2]] = val
-        val.append('x')                      # the caller keeps mutating its own object
+        val[0].append('x')                   # the caller keeps mutating its own object (payload and container)
+        val.append('xo')
         model[ukey(types, op[1], op[2])] = tuple(op[3])
     elif kind in ('setlist', 'setlist_str'):
-        val = list(op[3])
+        val = wrap(op[3])
         T[op[1], op[2]] = val
-        val.append('x')
+        val[0].append('x')
+        val.append('xo')
         l1 = op[1] if isinstance(op[1], list) else [op[1]]
         l2 = op[2] if isinstance(op[2], list) else [op[2]]
         for a in l1:
             for b in l2:
                 model[ukey(types, a, b)] = tuple(op[3])
     elif kind == 'setUnset':
-        val = list(op[1])
+        val = wrap(op[1])
         T.setUnset(val)
-        val.append('x')
+        val[0].append('x')
+        val.append('xo')
         for k in model:
             if model[k] is None:
                 model[k] = tuple(op[1])
@@ -121,7 +140,7 @@ def pt_step(T, model, types, op):
             if model[k] is not None:
                 model[k] = tuple(model[k]) + ('f',)
     elif kind == 'mutate':
-        T[op[1], op[2]].append('m')
+        T[op[1], op[2]][0].append('m')
         k = ukey(types, op[1], op[2])
         model[k] = tuple(model[k]) + ('m',)
     else:
@@ -137,7 +156,7 @@ def pt_invariant(T, model, types):
         for b in types:
             want = model[ukey(types, a, b)]
             got = T[a, b]
-            if (want is None) != (got is None) or (want is not None and list(got) != list(want)):
+            if (want is None) != (got is None) or (want is not None and flat(got) != list(want)):
                 pr.append(('value', 'T[%s,%s] reads %r, last assigned value of that unordered pair is %r' % (a, b, got, None if want is None else list(want))))
     if pr:
         return pr
@@ -155,7 +174,7 @@ def pt_invariant(T, model, types):
     modes = {'default': ({}, lambda i, j: i <= j), 'full': ({'full': True}, lambda i, j: True),
              'offdiag': ({'diagonal': False}, lambda i, j: i < j)}
     for nm, (kw, test) in modes.items():
-        got = [(tuple(ij), tuple(tt), (None if v is None else list(v))) for ij, tt, v in T.iterpairs(**kw)]
+        got = [(tuple(ij), tuple(tt), (None if v is None else flat(v))) for ij, tt, v in T.iterpairs(**kw)]
         want = []
         for i in range(n):
             for j in range(n):
@@ -170,21 +189,22 @@ def pt_invariant(T, model, types):
         for b in types:
             want = model[ukey(types, a, b)]
             got = T[a, b]
-            if (want is None) != (got is None) or (want is not None and list(got) != list(want)):
+            if (want is None) != (got is None) or (want is not None and flat(got) != list(want)):
                 pr.append(('apply', 'apply(inplace=False) changed the original at (%s,%s)' % (a, b)))
             nv = N[a, b]
             wn = None if want is None else list(want) + ['f']
-            if (wn is None) != (nv is None) or (wn is not None and list(nv) != wn):
+            if (wn is None) != (nv is None) or (wn is not None and flat(nv) != wn):
                 pr.append(('apply', 'apply(inplace=False) result at (%s,%s) is %r, expected %r' % (a, b, nv, wn)))
     if N is T:
         pr.append(('apply', 'apply(inplace=False) returned the original table'))
     else:
         for a in types:
             if N[a, a] is not None:
-                N[a, a].append('zz')
+                N[a, a][0].append('zz')
+                N[a, a].append('zo')
         for a in types:
             want = model[ukey(types, a, a)]
-            if want is not None and list(T[a, a]) != list(want):
+            if want is not None and flat(T[a, a]) != list(want):
                 pr.append(('apply', 'mutating the table returned by apply(inplace=False) changed the original'))
     return pr
 
